@@ -256,6 +256,12 @@ def finish(ctx, prop):
 
 
 def main_check(prop, tier, seed):
+    # replay files of earlier runs of this property would be mistaken for findings of this one
+    for f in glob.glob(os.path.join(core.VERIF, "replay", "%s-*.json" % prop.id)):
+        try:
+            os.remove(f)
+        except OSError:
+            pass
     ctx = Ctx(prop, tier, seed)
     stage_build(ctx, prop)
     stage_corr(ctx, prop)
